@@ -9,6 +9,7 @@ callee is declared `inline`.  Nothing here knows DAWGIE: that knowledge lives in
 import ast
 import hashlib
 import itertools
+import os
 import z3
 from .types import (Ty, INT, BOOL, STR, ATOM, BYTES, REAL, Ref, Enum, SetOf, SeqOf, Opt, MapOf, Rec, ListOf, atom, strlit)
 from . import types as _types
@@ -319,6 +320,8 @@ class Exec:
             return
         self._seen.add(k)
         v.inputs = dict(self.inputs)
+        v.rounds = getattr(self.k, 'inst_rounds', None)
+        v.max_inst = getattr(self.k, 'max_inst', None)
         self.vcs.append(v)
 
     def assume(self, f):
@@ -2155,6 +2158,11 @@ class Exec:
             used = [v for v in c.sks.values() if _occurs(f, v)]
             if used:
                 self.st.qh.append(QHyp(used, f, label))
+                # the instance at the proof's own skolem constants of the same names is what the next obligation
+                # almost always needs; stating it outright saves an instantiation round
+                sub = [(v, z3.Const('sk_' + nm, v.sort())) for nm, v in c.sks.items() if _occurs(f, v)]
+                if getattr(self.k, 'same_skolem', False):      # opt-in: it enlarges every later query of the function
+                    self.assume(z3.substitute(f, *sub))
                 return
         self.assume(f)
 
